@@ -101,12 +101,15 @@ class TlcResult:
         self.trace = []           # counter-example states as text
         self.ce = None            # counter-example as [(action name, context dict, state-after dict)]
         self.wall = 0.0
+        self.budget_exhausted = False
 
 
 def run_tlc(module, cfg, workers=8, timeout=1800, extra=None, env_extra=None, simulate=None,
             depth=None, coverage=False, jvm=None, deadlock=False, keep_lines=None, dfs=False, heap="8g",
-            dump_trace=True):
-    """Run TLC on specs/<module>.tla with specs/<cfg>. keep_lines: predicate(line)->bool to retain
+            dump_trace=True, budget=None):
+    """budget (seconds): stop the exploration when it is used up and report what was explored so far
+    (r.budget_exhausted) instead of failing; a violation found before that is reported as usual.
+    Run TLC on specs/<module>.tla with specs/<cfg>. keep_lines: predicate(line)->bool to retain
     lines (e.g. EDGE / REPLAY prints). Returns TlcResult."""
     r = TlcResult()
     meta = os.path.join(scratch(), "tlc.%s.%d" % (os.path.basename(cfg), int(time.time() * 1000) % 10**9))
@@ -157,6 +160,10 @@ def run_tlc(module, cfg, workers=8, timeout=1800, extra=None, env_extra=None, si
             out_tail.append(line)
             if len(out_tail) > 4000:
                 del out_tail[300:1300]
+            if budget and time.time() > t0 + budget and not important:
+                p.kill()
+                r.budget_exhausted = True
+                break
             if time.time() > deadline:
                 p.kill()
                 raise ToolError("TLC timed out after %ss on %s" % (timeout, cfg))
@@ -215,6 +222,10 @@ def run_tlc(module, cfg, workers=8, timeout=1800, extra=None, env_extra=None, si
     errs = [l for l in out_tail if l.startswith("Error:") or "Exception" in l or "***Parse Error***" in l]
     if r.violated or r.deadlock:
         r.ok = False
+    elif r.budget_exhausted:
+        r.ok = True
+        for m in re.finditer(r"Progress\((\d+)\).*?: ([\d,]+) states generated.*?, ([\d,]+) distinct states found", txt):
+            r.depth = int(m.group(1)); r.generated = int(m.group(2).replace(",", "")); r.distinct = int(m.group(3).replace(",", ""))
     elif p.returncode == 0 and finished:
         r.ok = True
     else:
